@@ -122,6 +122,7 @@ func (p *Proxy) Run(ctx context.Context) error {
 				} else {
 					p.logErrorf("destination error, source %s dest %s: %s", p.source.GetID(), p.dest.ID(), err)
 				}
+				failedDest := p.dest
 				if p.dest != nil {
 					p.dest.conn.Close()
 				}
@@ -131,6 +132,10 @@ func (p *Proxy) Run(ctx context.Context) error {
 					cancel()
 					return ctx.Err()
 				case <-time.After(RECONNECT_TIMEOUT):
+				}
+
+				if p.replacedMeanwhile(ctx, failedDest) {
+					continue
 				}
 
 				// try to reconnect to the same dest
@@ -164,6 +169,25 @@ func (p *Proxy) Run(ctx context.Context) error {
 		}
 		return nil
 	}
+}
+
+// replacedMeanwhile reports whether a destination change has replaced the failed destination while
+// Run was waiting to reconnect it. The new destination is healthy and must not be reconnected;
+// only the pipe, whose finished direction cannot be started again, is renewed.
+func (p *Proxy) replacedMeanwhile(ctx context.Context, failedDest *ConnDest) bool {
+	p.setDestLock.Lock()
+	defer p.setDestLock.Unlock()
+
+	if p.dest == failedDest {
+		return false
+	}
+
+	<-p.pipe.StopSourceToDest()
+	<-p.pipe.StopDestToSource()
+	p.pipe = NewPipe(p.source, p.dest, p.pipe.sourceInterceptor, p.pipe.destInterceptor, p.log)
+	p.pipe.StartSourceToDest(ctx)
+	p.pipe.StartDestToSource(ctx)
+	return true
 }
 
 func (p *Proxy) ConnectDest(ctx context.Context, newDestURL *url.URL) error {
